@@ -149,9 +149,9 @@ pub struct Geometry {
 }
 
 pub const WIDTHS: [usize; 5] = [8, 12, 16, 20, 24];
-pub const FAMILIES: [&str; 18] = [
+pub const FAMILIES: [&str; 19] = [
     "silence", "dc", "dcmax", "dcmin", "altfull", "impulse", "step", "ramp", "poly", "sine",
-    "noise_lo", "noise_mid", "noise_full", "cauchy", "riceadv", "thresh", "nearverb", "dcnoise",
+    "noise_lo", "noise_mid", "noise_full", "cauchy", "riceadv", "thresh", "nearverb", "dcnoise", "nyqsmooth",
 ];
 pub const RELATIONS: [&str; 5] = ["indep", "same", "inverted", "near", "mixed"];
 
@@ -201,6 +201,39 @@ pub fn channel(rng: &mut StdRng, family: &str, bps: usize, n: usize) -> Vec<i32>
             let b = rng.gen_range(lo..=hi) as i32;
             for (t, x) in v.iter_mut().enumerate() {
                 *x = if t < k { a } else { b };
+            }
+        }
+        "burst" => {
+            // a quiet block with near-full-scale noise in one or two 64-sample partitions: those partitions want a
+            // Rice parameter of bits_per_sample - 1 or more while the subframe as a whole still beats verbatim
+            let quiet = rng.gen_range(1..=3i64);
+            for x in v.iter_mut() {
+                *x = rng.gen_range(-quiet..=quiet) as i32;
+            }
+            let nparts = (n / 64).max(1);
+            for _ in 0..rng.gen_range(1..=2) {
+                let p = rng.gen_range(0..nparts);
+                for x in v.iter_mut().skip(p * 64).take(64) {
+                    *x = rng.gen_range(lo..=hi) as i32;
+                }
+            }
+        }
+        "nyqsmooth" => {
+            // a smooth envelope modulated to the Nyquist frequency (or to a quarter of the sample rate): the ideal
+            // predictor has LARGE NEGATIVE coefficients (-2, -1 / -3, -3, -1 / 0, -2, 0, -1), which do not fit low
+            // coefficient precisions unless the quantiser clamps them
+            let kind = rng.gen_range(0..3);
+            let per = rng.gen_range(40.0..400.0f64);
+            let amp = hi as f64 * rng.gen_range(0.2..0.9);
+            let ph = rng.gen_range(0.0..6.28f64);
+            for (t, x) in v.iter_mut().enumerate() {
+                let e = match kind {
+                    0 => (t as f64 / per + ph).sin(),
+                    1 => ((t as f64 / per).fract() - 0.5) * 1.6,
+                    _ => (t as f64 / per + ph).sin() * (t as f64 / (3.0 * per)).cos(),
+                };
+                let carrier = if kind == 1 { [1.0, 0.0, -1.0, 0.0][t % 4] } else if t % 2 == 0 { 1.0 } else { -1.0 };
+                *x = clampw((e * carrier * amp) as i64 + rng.gen_range(-1..=1), bps);
             }
         }
         "ramp" => {
